@@ -344,14 +344,25 @@ Definition stale_step (c : ccfg) (w : world) (cl : call) (st : list ((N * Z) * (
   if hres_eqb (cl_out cl) HOk then st else
   let ch := (cl_t cl, cl_k cl) in
   let o := match cl_new cl, cl_old cl with Some o, _ => o | None, Some o => o | None, None => mk_obj [] end in
-  map (fun p => (ch, p))
-      (List.filter (fun p => match w !! ch, w !! p with Some _, Some _ => false | _, _ => true end)
-                   (ancestors c (S (length (cc_types c))) (cl_t cl) o)) ++ st.
+  let anc := ancestors c (S (length (cc_types c))) (cl_t cl) o in
+  (if match w !! ch with Some _ => false | None => true end
+      || existsb (fun p => match w !! p with Some _ => false | None => true end) anc
+   then map (fun p => (ch, p)) anc else []) ++ st.
+(** ... and the pairs (child, parent) such that the child had queue entries, as seen by some
+    handler invocation, while the parent (or the child) was absent from the target: the entry
+    may have been appended by a deferral, without any failed call of its own *)
+Definition stale_snap (c : ccfg) (w : world) (q : list (N * Z * obj)) (st : list ((N * Z) * (N * Z))) :=
+  flat_map (fun e => let anc := ancestors c (S (length (cc_types c))) (fst (fst e)) (snd e) in
+                     (* the chain of parents is followed through the local cache: one absent link hides all the others *)
+                     if match w !! fst e with Some _ => false | None => true end
+                        || existsb (fun p => match w !! p with Some _ => false | None => true end) anc
+                     then map (fun p => (fst e, p)) anc else []) q ++ st.
 Fixpoint c09_direct_ns (c : ccfg) (pol : fkpolicy) (skip : list (N * Z)) (st : list ((N * Z) * (N * Z)))
          (w : world) (cls : list call) (qs : list (list (N * Z * obj))) : bool :=
   match cls, qs with
   | cl :: r, q :: qr =>
       let p := (cl_t cl, cl_k cl) in
+      let st := stale_snap c w q st in
       (negb (covered pol (cl_kind cl)) || id_in p skip
        || match w !! p with None => true
           | Some _ => negb (pending_child c p (List.filter (fun e => negb (pair_in (fst e, p) st) && negb (id_in (fst e) skip)) q)) end)
@@ -359,23 +370,26 @@ Fixpoint c09_direct_ns (c : ccfg) (pol : fkpolicy) (skip : list (N * Z)) (st : l
   | [], [] => true
   | _, _ => false
   end.
-Fixpoint c09_calls_ns (c : ccfg) (skip : list (N * Z)) (st : list ((N * Z) * (N * Z))) (w : world) (cls : list call) : bool :=
-  match cls with
-  | [] => true
-  | cl :: r =>
+Fixpoint c09_calls_ns (c : ccfg) (skip : list (N * Z)) (st : list ((N * Z) * (N * Z))) (w : world) (cls : list call)
+         (qs : list (list (N * Z * obj))) : bool :=
+  match cls, qs with
+  | cl :: r, q :: qr =>
       let ok := hres_eqb (cl_out cl) HOk in
       let p := (cl_t cl, cl_k cl) in
+      let st := stale_snap c w q st in
       (match cl_kind cl with
        | HRemoved | HTrashed => negb ok || id_in p skip
                                 || match List.filter (fun ch => negb (pair_in (ch, p) st)) (children_of c w p) with [] => true | _ => false end
        | _ => true end)
-      && c09_calls_ns c skip (stale_step c w cl st) (tapply w cl) r
+      && c09_calls_ns c skip (stale_step c w cl st) (tapply w cl) r qr
+  | [], [] => true
+  | _, _ => false
   end.
 Definition c09_case_nostale (x : ccase) : bool :=
-  c09_calls_ns (k_cfg x) [] [] ∅ (all_calls (k_iters x))
+  c09_calls_ns (k_cfg x) [] [] ∅ (all_calls (k_iters x)) (k_qobs x)
   && c09_direct_ns (k_cfg x) (cc_fkpolicy (k_cfg x)) [] [] ∅ (all_calls (k_iters x)) (k_qobs x).
 Definition c09_case_excused (x : ccase) : bool :=
-  c09_calls_ns (k_cfg x) (readded x) [] ∅ (all_calls (k_iters x))
+  c09_calls_ns (k_cfg x) (readded x) [] ∅ (all_calls (k_iters x)) (k_qobs x)
   && c09_direct_ns (k_cfg x) (cc_fkpolicy (k_cfg x)) (readded x) [] ∅ (all_calls (k_iters x)) (k_qobs x).
 
 (* debugging aids *)
